@@ -11,13 +11,28 @@ func init() {
 		ID: "C08",
 		Decides: "(R08.1) every site in isaacstates that signs a ballot sign fact with the local key is reached only through the not-found edge of a ballot-pool lookup for the same stage and suffrage-confirm flag, whose found edge hands out the stored ballot (consensus handlers directly; the mimic path through mimicBallotFunc -> mimicBallot -> signMimicBallot -> mimicBallot); " +
 			"(R08.2) the broadcaster stores a local ballot before broadcasting, consults the pool's first-writer-wins answer, and on `already stored` broadcasts the ballot loaded from the pool for that same stage point; what is broadcast is exactly what set() returned; " +
-			"(R08.4) ballot sign facts are signed with the local key only at the tabled sites; (R08.5) the ballot pool's cleanup depth is a positive constant, so the stored local ballot of the current height — what every lookup-before-sign relies on — is not purged.; (R08.6) the mimic path votes with the ballot the broadcaster settled on and (R08.7) the ballot cleaner's reference is not the highest stored ballot — both violated today, known findings",
+			"(R08.4) ballot sign facts are signed with the local key only at the tabled sites; (R08.5) the ballot pool's cleanup depth is a positive constant, so the stored local ballot of the current height — what every lookup-before-sign relies on — is not purged.; (R08.6) the mimic path votes with the ballot the broadcaster settled on and (R08.7) the ballot cleaner's reference is not the highest stored ballot — both violated today, known findings; (R08.3) TempPool.SetBallot tests and writes the ballot's own (stage point, suffrage-confirm flag) key in one exclusive section of the set lock and writes only if the key does not exist",
 		NotDecided: "atomicity of the pool's own exists-then-put (C24); that the pool lookup key and the ballot's stage point coincide for all inputs (C24 R24.2); ballots signed by launch/dev commands outside isaacstates.",
 		Run:        runC08,
 	})
 }
 
 func runC08(c *Ctx) {
+	// the pool row of (stage point, suffrage-confirm flag) is what arbitrates: SetBallot tests and
+	// writes the ballot's own key in one exclusive section (the same obligations as C24's R24.1/R24.2)
+	c.Rule("R08.3", "KeyTable")
+	if fn := c.Need("isaac/database.(*TempPool).SetBallot"); fn != nil {
+		own := "isaacdatabase.leveldbBallotKey(bl.Point(), isaac.IsSuffrageConfirmBallotFact(bl.SignFact().Fact()))"
+		ex := c.CallsTo(fn, "(*storage/leveldb.PrefixStorage).Exists")
+		put := c.CallsTo(fn, "(*storage/leveldb.PrefixStorage).Put")
+		c.ArgIs(fn, "pool: the existence of the ballot's own (stage point, flag) key is tested", ex, 1, 0, own)
+		c.ArgIs(fn, "pool: the ballot is written under its own (stage point, flag) key", put, 1, 0, own)
+		c.Held(fn, nil, "pool: test under the set lock", ex, 1, "&db.setlock", LW)
+		c.Held(fn, nil, "pool: write under the set lock", put, 1, "&db.setlock", LW)
+		if len(ex) == 1 {
+			c.MP(fn, "pool: a ballot is written only if its key does not exist yet", put, 1, GFalse(globEscape(c.D(ex[0].(ssa.Value)))+"#0"))
+		}
+	}
 	// R08.4 / R08.1: local sign sites ---------------------------------------------------------------
 	c.Rule("R08.4", "WhoMayCall")
 	var signs []Site
